@@ -1094,20 +1094,6 @@ def trlog(T, check=True, twist=False):
                 return np.zeros((3,))
             else:
                 return np.zeros((3, 3))
-        elif abs(np.trace(R) + 1) < 100 * _eps:
-            # check for trace = -1
-            #   rotation by +/- pi, +/- 3pi etc.
-            diagonal = R.diagonal()
-            k = diagonal.argmax()
-            mx = diagonal[k]
-            I = np.eye(3)
-            col = R[:, k] + I[:, k]
-            w = col / np.sqrt(2 * (1 + mx))
-            theta = math.pi
-            if twist:
-                return w * theta
-            else:
-                return base.skew(w * theta)
         else:
             # general case
             # the skew part is 2 sin(theta) w, the trace gives cos(theta); atan2 of
@@ -1117,12 +1103,12 @@ def trlog(T, check=True, twist=False):
             st = np.linalg.norm(li) / 2
             ct = (np.trace(R) - 1) / 2
             theta = math.atan2(st, ct)
-            if st == 0:
+            if ct > -0.5 and st == 0:
                 w = np.zeros((3,))
             elif ct > -0.5:
                 w = li / 2 * (theta / st)
             else:
-                # near a half turn sin(theta) is small, take the axis from the
+                # near (or at) a half turn sin(theta) is small, take the axis from the
                 # symmetric part (R + R')/2 = cos(theta) I + (1 - cos(theta)) w w'
                 M = (R + R.T) / 2 - ct * np.eye(3)
                 k = M.diagonal().argmax()
